@@ -73,9 +73,24 @@ def _memo_hit(path, params):
 
 def r_visit(P, R):
     n = 0
+    covered = {'dd.bdd.BDD._support', 'dd.bdd.BDD.is_essential',
+               'dd.bdd.BDD._descendants'}
+    if R.prop in ('C10', 'C18', 'C06'):
+        # what the traversals compute, whatever their shape
+        from . import models
+        models.traversal_model(P, R)
     for q in VISITORS.get(R.prop, []):
         f = P.func(q)
         fn = f.node
+        recursive = any(au.call_name(c) == f.name
+                        for c in au.calls_in(fn))
+        if not recursive and q in covered:
+            # an iterative traversal (explicit stack): the path rule
+            # below reads recursive calls; the traversal model decides
+            n += 1
+            R.holds('R-VISIT', q, 'iterative traversal: decided by the '
+                    'traversal model', nontrivial=False)
+            continue
         cn = child_names(fn)
         if cn is None:
             raise AnalysisError(f'{q}: successor triple no longer unpacked')
